@@ -100,4 +100,47 @@ theorem cache_transparent (env : Env Doc) (tol : List Str) (b : Nat) (c c' : Cac
      | _, _ => False) := by
   exact Jtp.cache_transparent' env tol b c c' u hs hs'
 
+/-- For one kind of request (one list of tolerated types) distinct links have distinct cache
+    keys: what is remembered about one link is never served for another. -/
+theorem cacheKey_injective (tol : List Str) (u u' : Url) : cacheKey tol u = cacheKey tol u' → u = u' := by
+  exact fun h => Jtp.cacheKey_inj h
+
+/-- Requests that tolerate different type lists never share a cache entry: media types contain no
+    blank, so the blank in the key ends the joined list, and different joined lists give different
+    keys whatever the links are. -/
+theorem cacheKey_disjoint (tol tol' : List Str)
+    (h : List.intercalate [','] tol ≠ List.intercalate [','] tol')
+    (hs : ' ' ∉ List.intercalate [','] tol) (hs' : ' ' ∉ List.intercalate [','] tol')
+    (u u' : Url) : cacheKey tol u ≠ cacheKey tol' u' := by
+  exact Jtp.cacheKey_disjoint' tol tol' h hs hs' u u'
+
+/-- The hypotheses of `cacheKey_disjoint` hold of the two lists servitor really uses (ActivityPub
+    objects and WebFinger documents): their keys never coincide. -/
+example :
+    let ap : List Str := ["application/activity+json", "application/ld+json", "application/json"].map String.toList
+    let jrd : List Str := ["application/jrd+json", "application/json"].map String.toList
+    List.intercalate [','] ap ≠ List.intercalate [','] jrd ∧
+      ' ' ∉ List.intercalate [','] ap ∧ ' ' ∉ List.intercalate [','] jrd := by
+  decide
+
+/-- A fetch of one kind never disturbs what the cache holds for another kind: it adds entries
+    only under its own keys, and otherwise only reorders and evicts, so a cache that was sound for
+    requests tolerating `tol'` is still sound for them after a fetch tolerating `tol`. -/
+theorem get_keeps_sound_for_others (env : Env Doc) (tol tol' : List Str)
+    (hdis : ∀ u u', cacheKey tol u ≠ cacheKey tol' u') (b : Nat) (c : Cache Doc) (u : Url)
+    (hs : Sound env tol' c) : Sound env tol' (get env tol b c u).cache := by
+  exact Jtp.get_keeps_sound_for_others' env tol tol' hdis b c u hs
+
+/-- (3') Transparency across kinds of request: whatever a fetch tolerating `tol` did to the shared
+    cache in between, a later fetch tolerating `tol'` (with keys disjoint from those of `tol`)
+    returns a document exactly when a chain of at most `b'` hops exists for `tol'` — exactly what
+    the cold fetch returns, by (2).  In particular an entry filed by the first kind is never served
+    to the second. -/
+theorem cross_kind_transparent (env : Env Doc) (tol tol' : List Str)
+    (hdis : ∀ u u', cacheKey tol u ≠ cacheKey tol' u') (b b' : Nat) (c : Cache Doc) (u u' : Url)
+    (hs : Sound env tol' c) (d : Doc) (s : Url) :
+    ((∃ st, st = get env tol' b' (get env tol b c u).cache u' ∧ st.res = .ok d s) ↔
+      ∃ k, k ≤ b' ∧ Chain env tol' u' k d s) := by
+  exact Jtp.cross_kind_transparent' env tol tol' hdis b b' c u u' hs d s
+
 end C03
